@@ -145,7 +145,12 @@ def declared_theorems(mod):
     names = []
     ns = []
     with open(module_path(mod)) as f:
-        for l in f:
+        text = f.read()
+    # ignore comments (a commented-out statement is not an obligation)
+    text = re.sub(r"/-.*?-/", lambda m: "\n" * m.group(0).count("\n"), text, flags=re.S)
+    text = re.sub(r"--[^\n]*", "", text)
+    if True:
+        for l in text.split("\n"):
             m = re.match(r"namespace\s+(\S+)", l)
             if m:
                 ns.append(m.group(1))
